@@ -106,6 +106,9 @@ class Engine:
         self.spec_mode = 0
         self.old_state = None
         self.loop_records = {}
+        self.init_ref_arrays = {}
+        self.init_len = None
+        self.inst_done = set()
         self.entry_abase = None
         self.stdout = []                        # ghost stdout: (pc, template)
 
@@ -153,12 +156,33 @@ class Engine:
             a = z3.Array("H0_" + self.prefix + name, IntS, sort)
             state.heap[name] = a
             t = self.field_type(name)
-            if t and (t.startswith("ref:") or t.startswith("vec:") or t.startswith("list:")) and name not in self.ref_axiom_fields:
-                # well-formedness of the initial heap: references stored in pre-existing objects are pre-existing
-                self.ref_axiom_fields.add(name)
-                o = z3.Int("o!")
-                self.axioms.append(z3.ForAll([o], z3.And(a[o] >= 0, a[o] < self.alloc0), patterns=[a[o]]))
+            if t and (t.startswith("ref:") or t.startswith("vec:") or t.startswith("list:")):
+                # well-formedness of the initial heap: references stored in pre-existing objects are pre-existing.
+                # Instantiated on demand for every select on the initial array (see instantiate_heap_axioms).
+                self.init_ref_arrays[a.get_id()] = a
         return a
+
+    def instantiate_heap_axioms(self, e):
+        """ground instances of  forall o: 0 <= H0_f[o] < alloc0  (ref fields)  and  forall o: H0_len[o] >= 0"""
+        if not is_z3(e):
+            return
+        stack, seen = [e], set()
+        while stack:
+            x = stack.pop()
+            i = x.get_id()
+            if i in seen:
+                continue
+            seen.add(i)
+            if z3.is_select(x):
+                base = x.arg(0)
+                bid = base.get_id()
+                if bid in self.init_ref_arrays and i not in self.inst_done:
+                    self.inst_done.add(i)
+                    self.axioms.append(z3.And(x >= 0, x < self.alloc0))
+                elif self.init_len is not None and bid == self.init_len.get_id() and i not in self.inst_done:
+                    self.inst_done.add(i)
+                    self.axioms.append(x >= 0)
+            stack.extend(x.children())
 
     def wrap(self, e, t):
         if t is None:
@@ -176,7 +200,9 @@ class Engine:
         arr = self.harr(state, name)
         if self.safety:
             self.oblige(state, ref.e != 0, "nonnull", node, "dereference .%s" % name)
-        return self.wrap(self.norm(simp(z3.Select(arr, ref.e))), t)
+        e = simp(z3.Select(arr, ref.e))
+        self.instantiate_heap_axioms(e)
+        return self.wrap(self.norm(e), t)
 
     @staticmethod
     def norm(e):
@@ -227,6 +253,8 @@ class Engine:
         if a is None:
             a = z3.Const("H0_" + self.prefix + key, ElemR if key == "$elemR" else ElemI)
             state.heap[key] = a
+            if key == "$elemI":
+                self.init_elemI = a
         return key, a
 
     def len_heap(self, state):
@@ -234,8 +262,7 @@ class Engine:
         if a is None:
             a = z3.Array("H0_" + self.prefix + "$len", IntS, IntS)
             state.heap["$len"] = a
-            o = z3.Int("o!")
-            self.axioms.append(z3.ForAll([o], a[o] >= 0, patterns=[a[o]]))
+            self.init_len = a
         return a
 
     def elem_type(self, ref):
@@ -259,7 +286,9 @@ class Engine:
         return "vec:real" if self.elem_type(ref) == "real" else "vec:int"
 
     def vec_len(self, state, ref):
-        return self.norm(simp(z3.Select(self.len_heap(state), ref.e)))
+        e = simp(z3.Select(self.len_heap(state), ref.e))
+        self.instantiate_heap_axioms(e)
+        return self.norm(e)
 
     def norm_index(self, state, ref, idx):
         c = concrete(idx)
@@ -273,9 +302,30 @@ class Engine:
         zi = to_z3(idx, IntS)
         if self.safety:
             self.oblige(state, z3.And(ref.e != 0, zi >= 0, zi < self.vec_len(state, ref)), "index", node)
-        e = self.norm(simp(z3.Select(z3.Select(a, ref.e), zi)))
+        e = simp(z3.Select(z3.Select(a, ref.e), zi))
         et = self.elem_type(ref)
-        return self.wrap(e, et) if et not in ("real", "int") else e
+        if et not in ("real", "int"):
+            # elements of reference lists in the initial heap are pre-existing objects
+            if self.init_elemI is not None:
+                self.instantiate_elem_axioms(e)
+            return self.wrap(self.norm(e), et)
+        return self.norm(e)
+
+    init_elemI = None
+
+    def instantiate_elem_axioms(self, e):
+        stack, seen = [e], set()
+        while stack:
+            x = stack.pop()
+            i = x.get_id()
+            if i in seen:
+                continue
+            seen.add(i)
+            if z3.is_select(x) and z3.is_select(x.arg(0)) and x.arg(0).arg(0).get_id() == self.init_elemI.get_id() \
+                    and i not in self.inst_done:
+                self.inst_done.add(i)
+                self.axioms.append(z3.And(x >= 0, x < self.alloc0))
+            stack.extend(x.children())
 
     def vec_set(self, state, ref, idx, val, node=None, ghost=False):
         idx = self.norm_index(state, ref, idx)
@@ -1679,8 +1729,10 @@ class Engine:
         # 1. invariant on entry
         state.env[jn] = lo
         state.env["$lo"], state.env["$hi"] = lo, hi
+        entry_snapshot = state.fork()
         for i, inv in enumerate(spec.invariant):
-            self.oblige(state, self.eval_spec(state, inv, state.env), "inv-entry[%s#%d]" % (label, i), st, str(inv))
+            self.oblige(state, self.eval_spec(state, inv, state.env, entry_snapshot), "inv-entry[%s#%d]" % (label, i),
+                        st, str(inv))
         # 2. havoc
         locs = [self.parse_target(state, t, state.env) for t in spec.modifies]
         for loc in locs:
